@@ -17,6 +17,9 @@ EXPLANATION = ('step contracts are proved for all inputs; segmentation independe
 ASSUMPTIONS = ['A-STR: int(text, 16) / int(text) uninterpreted; whitespace = the six ASCII whitespace bytes',
                'segmentation independence of complete messages: bounded native sweep, not proved']
 CRLF = "b'\\r\\n'"
+WF = ('(%(c)s.state == 1 or %(c)s.state == 2 or %(c)s.state == 3) and '
+      '(%(c)s.state == 2 ==> (not isnone(%(c)s.size) and %(c)s.size > 0 and len(%(c)s.chunk) < %(c)s.size)) and '
+      '(%(c)s.state == 1 ==> ((isnone(%(c)s.size) or %(c)s.size == 0) and %(c)s.chunk.find(b\'\\r\\n\') < 0))')
 X = '(old(self.chunk) + raw)'
 
 
@@ -41,7 +44,8 @@ def build(reg):
         CH, 'ChunkParser.process', self_cls='ChunkParser', params={'raw': 'bytes'}, result=('tuple', 'bool', 'mv'),
         requires=[('state', 'self.state == 1 or self.state == 2'),
                   ('data-state', 'self.state == 2 ==> (not isnone(self.size) and self.size > 0 and len(self.chunk) < self.size)'),
-                  ('size-state', 'self.state == 1 ==> (isnone(self.size) or self.size == 0)')],
+                  ('size-state', 'self.state == 1 ==> (isnone(self.size) or self.size == 0)'),
+                  ('line-buffer-holds-no-complete-line', 'self.state == 1 ==> self.chunk.find(%s) < 0' % CRLF)],
         modifies=['self.state', 'self.body', 'self.chunk', 'self.size'],
         cases=[('waiting-for-data', 'self.state == 2'), ('waiting-for-size', 'self.state == 1')],
         ensures=[
@@ -60,11 +64,27 @@ def build(reg):
             ('line-consumed', '(old(self.state) == 1 and %s.find(%s) >= 0) ==> (self.chunk == EMPTY and '
                               'result[1] == %s[%s.find(%s) + 2:] and self.body == old(self.body))' % (X, CRLF, X, X, CRLF)),
             ('more-flag', 'result[0] == (len(result[1]) > 0)'),
+            ('rest-is-a-suffix', 'raw.endswith(result[1])'),
+            ('progress', 'len(raw) > 0 ==> len(result[1]) < len(raw)'),
+            ('well-formed-after', WF % {'c': 'self'}),
             ('complete-only-at-blank-line-after-last-chunk',
              'self.state == 3 ==> (old(self.state) == 1 and not isnone(old(self.size)) and old(self.size) == 0 and %s.find(%s) >= 0)' % (X, CRLF)),
         ],
         raises={'ValueError': [('only-from-a-size-line', 'old(self.state) == 1')]}))
+    T.append(reg.contract(
+        CH, 'ChunkParser.parse', self_cls='ChunkParser', params={'raw': 'mv'}, result='mv',
+        requires=[('well-formed', WF % {'c': 'self'})],
+        modifies=['self.state', 'self.body', 'self.chunk', 'self.size'], raise_modifies=['self.state', 'self.body', 'self.chunk', 'self.size'],
+        ensures=[('rest-is-a-suffix', 'raw.endswith(result)'), ('well-formed-after', WF % {'c': 'self'}),
+                 ('stops-only-when-done', 'self.state == 3 or len(result) == 0'),
+                 ('empty-input-is-a-no-op', 'len(raw) == 0 ==> unchanged(self.state, self.body, self.chunk, self.size)')],
+        raises={'ValueError': []},
+        loops={0: LoopSpec(inv=['pre_raw.endswith(raw)', WF % {'c': 'self'}, 'more == (len(raw) > 0)',
+                                'len(pre_raw) == 0 ==> unchanged(self.state, self.body, self.chunk, self.size)'],
+                           modifies=['raw', 'more', 'self.state', 'self.body', 'self.chunk', 'self.size'], snapshot=['raw'],
+                           decreases='len(raw)')}))
     T += body_contracts(reg)
+    T += driver_contracts(reg)
     return T
 
 
@@ -78,22 +98,196 @@ def body_contracts(reg):
     CL = "int_dec(self.headers[b'content-length'][1])"
     HAVE = "(b'' if isnone(old(self.body)) else old(self.body))"
     NEED = '(%s - len(%s))' % (CL, HAVE)
+    CLF = ("(not old(self._is_chunked_encoded) and old(self._content_expected) and not isnone(old(self.headers)) and "
+           "old(self.headers).has(b'content-length') and int_dec_ok(old(self.headers)[b'content-length'][1]) and "
+           "int_dec(old(self.headers)[b'content-length'][1]) > 0 and "
+           "(isnone(old(self.body)) or len(old(self.body)) < int_dec(old(self.headers)[b'content-length'][1])))")
+    CMOD = ['self.chunk', 'self.chunk.state', 'self.chunk.body', 'self.chunk.chunk', 'self.chunk.size']
     return [reg.contract(
         PF, 'HttpParser._process_body', self_cls='HttpParser', params={'raw': 'mv'}, result=('tuple', 'bool', 'mv'),
-        requires=[('content-length-framing', 'not self._is_chunked_encoded and self._content_expected'),
-                  ('header-present', "not isnone(self.headers) and self.headers.has(b'content-length') and "
-                                     "int_dec_ok(self.headers[b'content-length'][1]) and %s > 0" % CL),
-                  ('body-so-far', 'isnone(self.body) or len(self.body) < %s' % CL.replace('old(', '(')),
-                  ('state', 'self.state == 4 or self.state == 5')],
-        modifies=['self.state', 'self.body'],
-        ensures=[('takes-exactly-the-missing-bytes', 'self.body == %s + raw[:%s]' % (HAVE, NEED)),
-                 ('rest-untouched', 'result[1] == raw[%s:]' % NEED),
-                 ('complete-exactly-at-declared-length', '(self.state == 6) == (len(self.body) == %s)' % CL),
-                 ('otherwise-receiving', 'self.state == 6 or self.state == 5'),
-                 ('more-flag', 'result[0] == (len(raw) > 0)')],
-        raises={})]
+        requires=[('state', 'self.state == 4 or self.state == 5'),
+                  ('chunk-parser-well-formed', 'isnone(self.chunk) or (%s)' % (WF % {'c': 'self.chunk'}))],
+        modifies=['self.state', 'self.body'] + CMOD, raise_modifies=['self.state', 'self.body'] + CMOD,
+        cases=[('content-length', CLF.replace('old(', '(')), ('chunked', 'self._is_chunked_encoded'),
+               ('other', 'not self._is_chunked_encoded and not (%s)' % CLF.replace('old(', '('))],
+        ensures=[('takes-exactly-the-missing-bytes', '%s ==> self.body == %s + raw[:%s]' % (CLF, HAVE, NEED)),
+                 ('rest-untouched', '%s ==> result[1] == raw[%s:]' % (CLF, NEED)),
+                 ('complete-exactly-at-declared-length', '%s ==> ((self.state == 6) == (len(self.body) == %s))' % (CLF, CL)),
+                 ('otherwise-receiving', '%s ==> (self.state == 6 or self.state == 5)' % CLF),
+                 ('more-flag', '%s ==> result[0] == (len(raw) > 0)' % CLF),
+                 # ---- whatever the framing
+                 ('rest-is-a-suffix', 'raw.endswith(result[1])'),
+                 ('state', 'self.state == 4 or self.state == 5 or self.state == 6'),
+                 ('chunk-parser-well-formed-after', 'isnone(self.chunk) or (%s)' % (WF % {'c': 'self.chunk'})),
+                 ('flags-kept', 'unchanged(self._is_chunked_encoded, self._content_expected)')],
+        raises={'ValueError': [], 'KeyError': []})]
+
+
+def driver_contracts(reg):
+    """The line / header steps and the driver loop of HttpParser.parse, and ChunkParser.parse:
+    whatever the input, a step hands back a SUFFIX of what it was given, consumes only whole
+    CRLF-terminated lines (or nothing when no line is complete), and parse() keeps exactly the
+    unconsumed tail in self.buffer -- the conservation law under segmentation independence."""
+    pf = dict(reg.classes['HttpParser']['fields'])
+    reg.klass('ProxyProtocol', py='proxy.http.parser.protocol:ProxyProtocol', fields={'version': ('opt', 'int')})
+    pf['protocol'] = ('opt', ('obj', 'ProxyProtocol'))
+    reg.klass('HttpParser', py='proxy.http.parser.parser:HttpParser', fields=pf)
+    reg.contract('proxy/http/parser/protocol.py', 'ProxyProtocol.parse', self_cls='ProxyProtocol', params={'raw': 'bytes'},
+                 assumed=True, modifies=['self.version'], raise_modifies=['self.version'],
+                 ensures=[('version-known', 'not isnone(self.version)')], raises={'Exception': []},
+                 note='PROXY protocol v1 line (not part of the framing argument): sets the version or raises')
+    HMOD = ['self.headers', 'self._content_expected', 'self._is_chunked_encoded']
+    reg.contract(PF, 'HttpParser._process_header', self_cls='HttpParser', params={'raw': 'bytes'}, assumed=True,
+                 modifies=HMOD, raise_modifies=HMOD, raises={'ValueError': []},
+                 note='one field line into the header map (its content: C08/C02); int() of a bad Content-Length raises')
+    reg.contract(PF, 'HttpParser.set_url', self_cls='HttpParser', params={'url': 'bytes', 'allowed_url_schemes': ('opt', ('list', 'bytes'))},
+                 assumed=True, modifies=['self.host', 'self.port', 'self.path'], raise_modifies=['self.host', 'self.port', 'self.path'],
+                 raises={'Exception': []}, note='request-target parsing: C14')
+    T = []
+    CONS = 'pre_raw[:len(pre_raw) - len(raw)]'
+    STEP_POST = [('rest-is-a-suffix', 'raw.endswith(result[1])'),
+                 ('no-complete-line-nothing-consumed', 'raw.find(%s) < 0 ==> (result[1] == raw and not result[0] and self.state == old(self.state))' % CRLF),
+                 ('only-whole-lines-consumed', 'len(result[1]) < len(raw) ==> raw[:len(raw) - len(result[1])].endswith(%s)' % CRLF),
+                 ('more-means-rest', 'result[0] == (len(result[1]) > 0) or raw.find(%s) < 0 or result[1].find(%s) < 0' % (CRLF, CRLF))]
+    STEP_INV = ['pre_raw.endswith(raw)', 'len(raw) < len(pre_raw) ==> %s.endswith(%s)' % (CONS, CRLF)]
+    T.append(reg.contract(
+        PF, 'HttpParser._process_headers', self_cls='HttpParser', params={'raw': 'mv'}, result=('tuple', 'bool', 'mv'),
+        requires=[('state', 'self.state == 2 or self.state == 3')],
+        modifies=HMOD + ['self.state'], raise_modifies=HMOD + ['self.state'],
+        ensures=STEP_POST + [('state', 'self.state == 2 or self.state == 3 or self.state == 4'),
+                             ('stops-only-when-done', 'self.state == 4 or len(result[1]) == 0 or result[1].find(%s) < 0' % CRLF)],
+        raises={'ValueError': []},
+        loops={0: LoopSpec(inv=STEP_INV + ['self.state == 2 or self.state == 3',
+                                           'len(raw) == len(pre_raw) ==> self.state == old(self.state)'],
+                           modifies=['raw', 'parts', 'line', 'self.state'] + HMOD, snapshot=['raw'], decreases='len(raw)')}))
+    LMOD = ['self.method', 'self._is_https_tunnel', 'self.version', 'self.code', 'self.reason', 'self.state',
+            'self.host', 'self.port', 'self.path', 'self.protocol.version']
+    T.append(reg.contract(
+        PF, 'HttpParser._process_line', self_cls='HttpParser',
+        params={'raw': 'mv', 'allowed_url_schemes': ('opt', ('list', 'bytes'))}, result=('tuple', 'bool', 'mv'),
+        requires=[('state', 'self.state == 1'), ('type', 'self.type == 1 or self.type == 2')],
+        modifies=LMOD, raise_modifies=LMOD,
+        ensures=STEP_POST + [('state', 'self.state == 1 or self.state == 2'),
+                             ('line-received-only-by-consuming-a-line', 'self.state == 2 ==> len(result[1]) < len(raw)')],
+        raises={'Exception': []},
+        loops={0: LoopSpec(inv=STEP_INV + ['self.state == 1'],
+                           modifies=['raw', 'parts', 'line', 'self.protocol.version'], snapshot=['raw'], decreases='len(raw)')}))
+    CMOD = ['self.chunk', 'self.chunk.state', 'self.chunk.body', 'self.chunk.chunk', 'self.chunk.size']
+    PMOD = ['self.' + f for f in pf if f not in ('type', 'protocol', 'chunk')] + CMOD + ['self.protocol.version']
+    CWF = 'isnone(self.chunk) or (%s)' % (WF % {'c': 'self.chunk'})
+    B = "((b'' if isnone(old(self.buffer)) else old(self.buffer)) + raw)"
+    T.append(reg.contract(
+        PF, 'HttpParser.parse', self_cls='HttpParser', params={'raw': 'mv', 'allowed_url_schemes': ('opt', ('list', 'bytes'))},
+        requires=[('state', 'self.state >= 1 and self.state <= 6'), ('type', 'self.type == 1 or self.type == 2'),
+                  ('chunk-parser-well-formed', CWF),
+                  ('buffer-holds-no-complete-line', '(self.state <= 3 and not isnone(self.buffer)) ==> self.buffer.find(%s) < 0' % CRLF)],
+        modifies=PMOD, raise_modifies=PMOD,
+        ensures=[('size', 'self.total_size == old(self.total_size) + len(raw)'),
+                 ('unconsumed-tail-kept', 'isnone(self.buffer) or (len(self.buffer) > 0 and %s.endswith(self.buffer))' % B),
+                 ('empty-input-is-a-no-op', 'len(raw) == 0 ==> (self.state == old(self.state) and '
+                                            '(isnone(self.buffer) == isnone(old(self.buffer)) or len(old(self.buffer)) == 0) and '
+                                            '(not isnone(self.buffer) ==> self.buffer == old(self.buffer)))'),
+                 # in the line / header states the split is unique: everything up to the last CRLF is consumed,
+                 # exactly the partial line after it is kept
+                 ('exactly-the-partial-line-is-kept',
+                  'self.state <= 3 ==> (REST.find(%s) < 0 and (len(REST) == len(%s) or %s[:len(%s) - len(REST)].endswith(%s)))'.replace(
+                      'REST', "(b'' if isnone(self.buffer) else self.buffer)") % (CRLF, B, B, B, CRLF)),
+                 ('state', 'self.state >= 1 and self.state <= 6'),
+                 ('chunk-parser-well-formed-after', CWF)],
+        raises={'Exception': [('size', 'self.total_size == old(self.total_size) + len(raw)')]},
+        loops={0: LoopSpec(inv=['pre_raw.endswith(raw)', 'self.state >= 1 and self.state <= 6', CWF,
+                                'self.total_size == old(self.total_size) + size', 'isnone(self.buffer)',
+                                'size == 0 ==> (not more and self.state == old(self.state) and raw == pre_raw)',
+                                '(self.state <= 3 and not more) ==> raw.find(%s) < 0' % CRLF,
+                                'len(raw) == len(pre_raw) or pre_raw[:len(pre_raw) - len(raw)].endswith(%s) or self.state >= 4' % CRLF],
+                           modifies=['raw', 'more'] + [m for m in PMOD if m not in ('self.total_size', 'self.buffer')],
+                           snapshot=['raw'])}))
+    return T
 
 
 def bounded_checks(reg, tier, seed):
     from . import parser_sweep
     return [parser_sweep.sweep(tier, seed)]
+
+
+CROSSCHECK = ['find_http_line', 'ChunkParser.process', 'HttpParser._process_body', 'ChunkParser.parse',
+              'HttpParser._process_headers', 'HttpParser._process_line', 'HttpParser.parse']
+
+
+def crosscheck_gens(reg):
+    """input generators for the CPython cross-check where the preconditions are too narrow for
+    type-directed random generation (they only choose inputs; acceptance is still decided by
+    evaluating the contract's `requires` natively)"""
+    def chunk_process(g, rnd):
+        o = g.obj('ChunkParser')
+        o.body = g.bytes_()
+        if rnd.random() < 0.5:
+            o.state, o.size = 2, rnd.randrange(1, 24)
+            o.chunk = bytes(rnd.randrange(256) for _ in range(rnd.randrange(0, o.size)))
+            raw = bytes(rnd.randrange(256) for _ in range(rnd.randrange(0, 30)))
+            if rnd.random() < 0.6:      # put the CRLF where the data ends, or one off
+                k = o.size - len(o.chunk) + rnd.choice([0, 0, 0, 1, -1])
+                raw = raw[:max(0, k)] + b'\r\n' + raw[max(0, k):]
+        else:
+            o.state, o.size = 1, rnd.choice([None, None, 0])
+            o.chunk = rnd.choice([b'', b'', b'1', b'a;x=', b'\r', b'Trailer: v', b'0'])
+            raw = rnd.choice([b'', b'5', b'1f', b'0', b'A;ext=1', b'zz', b'\n', b'7\r', b'', b'X-T: 1']) + \
+                rnd.choice([b'', b'\r\n', b'\r\nabc', b'\r\n\r\n', b'\r', b'\n\r\n'])
+        return o, {'raw': raw}
+
+    def process_body(g, rnd):
+        o = g.obj('HttpParser')
+        n = rnd.randrange(1, 40)
+        o._is_chunked_encoded, o._content_expected = False, True
+        o.headers = {b'content-length': (rnd.choice([b'Content-Length', b'content-length']), b'%d' % n)}
+        o.body = None if rnd.random() < 0.4 else bytes(rnd.randrange(256) for _ in range(rnd.randrange(0, n)))
+        o.state = rnd.choice([4, 5])
+        return o, {'raw': memoryview(bytes(rnd.randrange(256) for _ in range(rnd.randrange(0, 60))))}
+    from . import parser_sweep
+    fam = [(t, m) for t, m, _ in parser_sweep.family()]
+    fam += [(1, b'GET / HTTP/1.1\r\nHost: a\r\n\r\nGET /2 HTTP/1.1\r\n\r\n'), (1, b'POST / HTTP/1.1\r\nContent-Length: 3\r\n\r\nabcdef'),
+            (2, b'HTTP/1.1 200 OK\r\n\r\n'), (2, b'HTTP/1.0 200 OK\r\nX: 1\r\n\r\nbody until close'),
+            (1, b'PUT /x HTTP/1.1\r\nTransfer-Encoding: chunked\r\n\r\n3;a=b\r\nabc\r\n0\r\nT: 1\r\n\r\nNEXT'),
+            (1, b'BROKEN\r\n\r\n'), (1, b'GET / HTTP/1.1\r\nContent-Length: x\r\n\r\n'), (1, b'PUT / HTTP/1.1\r\nTransfer-Encoding: chunked\r\n\r\nzz\r\n')]
+
+    def fed_parser(rnd):
+        """a real parser in a reachable state: a message family member fed up to a random cut"""
+        from proxy.http.parser import HttpParser
+        while True:
+            t, m = rnd.choice(fam)
+            a = rnd.randrange(0, len(m) + 1)
+            b = rnd.randrange(a, len(m) + 1) if rnd.random() < 0.8 else a
+            pr = HttpParser(t)
+            try:
+                if a:
+                    pr.parse(memoryview(m[:a]))
+            except Exception:       # noqa
+                continue
+            return pr, m[a:b]
+
+    def parse(g, rnd):
+        pr, piece = fed_parser(rnd)
+        return pr, {'raw': memoryview(piece), 'allowed_url_schemes': None}
+
+    def headers_step(g, rnd):
+        from proxy.http.parser import HttpParser
+        pr = HttpParser(rnd.choice([1, 2]))
+        pr.parse(memoryview(b'GET / HTTP/1.1\r\n' if pr.type == 1 else b'HTTP/1.1 200 OK\r\n'))
+        if rnd.random() < 0.5:
+            pr.parse(memoryview(b'A: b\r\n'))
+        raw = b''.join(rnd.choice([b'K: v\r\n', b'Content-Length: 4\r\n', b'\r\n', b'X', b'\r', b'\n', b'Transfer-Encoding: chunked\r\n',
+                                   b'Content-Length: q\r\n', b'body']) for _ in range(rnd.randrange(0, 5)))
+        return pr, {'raw': memoryview(raw)}
+
+    def line_step(g, rnd):
+        from proxy.http.parser import HttpParser
+        pr = HttpParser(rnd.choice([1, 2]))
+        raw = b''.join(rnd.choice([b'GET / HTTP/1.1', b'HTTP/1.1 200 OK', b'CONNECT h:443 HTTP/1.1', b'\r\n', b'\r', b'X: y\r\n', b'HTTP/1.1 200', b'junk',
+                                   b'GET http://h/p HTTP/1.1\r\n']) for _ in range(rnd.randrange(0, 4)))
+        return pr, {'raw': memoryview(raw), 'allowed_url_schemes': None}
+
+    def chunk_parse(g, rnd):
+        o, a = chunk_process(g, rnd)
+        return o, {'raw': memoryview(a['raw'] + rnd.choice([b'', b'3\r\nabc\r\n', b'0\r\n\r\n', b'\r\n0\r\n\r\nTAIL']))}
+    return {'ChunkParser.process': chunk_process, 'HttpParser._process_body': process_body, 'ChunkParser.parse': chunk_parse,
+            'HttpParser._process_headers': headers_step, 'HttpParser._process_line': line_step, 'HttpParser.parse': parse}
